@@ -210,6 +210,10 @@ package net
 //@   call dyn#1: ghost e.dvisited := i
 // what is offered is the message being dispatched, to the queue of the handler whose filter selected
 // it (C04: a reply reaches the caller whose filter matched it, and nobody else's queue)
+// the only thing dispatch itself ever sends is the "consumer blocked" error, and only in answer to a
+// Call that could not be queued: a post (or any other kind of message) that is dropped gets no response
+//@   call Send#1: assert[C04] msg.Header.Type == 1
+//@   call NewHeader#1: assert[C04] arg0 == 3 && arg1 == msg.Header.Service && arg2 == msg.Header.Object && arg3 == msg.Header.Action && arg4 == msg.Header.ID
 //@   call select#1: assert[C10,C04,C11,C13] matched && arg1 == msg && arg0 == h.consumer && h == at_lock(e.handlers[i])
 //@   ensures[C17] at_unlock(len(e.handlers)) == at_lock(len(e.handlers))
 //@   ensures[C17] forall i int {at_unlock(e.handlers[i])} :: 0 <= i && i < at_lock(len(e.handlers)) ==> at_unlock(e.handlers[i]) == at_lock(e.handlers[i]) || (at_unlock(e.handlers[i]) == nil && at_lock(e.handlers[i]) != nil && at_lock(e.handlers[i]).hclosed == 1 && at_lock(e.handlers[i]).consumer.chclosed)
